@@ -31,6 +31,18 @@ Emit == LET vs == Verdicts(KN, KM) IN
            num |-> HardScore[1], den |-> HardScore[2], unit |-> HardScore[3],
            pl |-> Placements ])>>)
 
+\* C03: wells of range 2.5 and 4 length units (world units: D*U per unit length)
+CW1 == ((D * U) * (D * U) * 25) \div 4
+RW1 == ((D * U) * 5) \div 2
+CW2 == (D * U) * (D * U) * 16
+RW2 == (D * U) * 4
+ProbeOK == RedescriptionOK(CW1, RW1)
+EmitProbe == PrintT(<<"EMIT", ToJson([
+           g |-> g, U |-> U, D |-> D, ax |-> ax, bx |-> bx, by |-> by, sx |-> sx, sy |-> sy, n |-> N,
+           cw1 |-> CW1, sum1 |-> OrderedSum(sx, sy, CW1, RW1), in1 |-> InWell(sx, sy, CW1, RW1),
+           cw2 |-> CW2, sum2 |-> OrderedSum(sx, sy, CW2, RW2), in2 |-> InWell(sx, sy, CW2, RW2),
+           redesc |-> Redescriptions ])>>)
+
 \* placements only (cheap): used where the overlap verdict is not needed
 EmitPlacements == PrintT(<<"EMIT", ToJson([
            g |-> g, shape |-> sh.name,
